@@ -254,6 +254,20 @@ def is_mutable_value(v):
     return isinstance(v, MUTABLE_NODES)
 
 
+def import_iso(ctx, classes, rule, why):
+    """Re-report R14-ISO (state shared between instances) for the given classes under another property's rule name."""
+    from ..report import Ctx
+    tmp = Ctx(ctx.prop, ctx.tier, ctx.seed, ctx.model)
+    check_isolation(tmp)
+    n = 0
+    for f in tmp.findings:
+        if f.rule == "R14-ISO" and any(f.qual == c or f.qual.startswith(c + ".") for c in classes):
+            ctx.add_finding(rule, f.file, f.qual, f.construct, "%s: %s" % (why, f.why), f.line)
+            n += 1
+    ctx.ob(rule, n == 0, "PyXAB/algos", ",".join(classes), "per-instance state", "no class-level / module-level mutable state in %s" % ", ".join(classes)
+           if n == 0 else "%d shared-state finding(s)" % n, nontrivial=False, finding=False)
+
+
 def check_isolation(ctx):
     model = ctx.model
     n = 0
